@@ -418,7 +418,7 @@ func hasDeriv(s ConstScalar) bool {
 	return false
 }
 
-const tag = 10 // the specification writes an element with a non-zero derivative as value + 10
+const tag = 1000 // the specification writes an element with a non-zero derivative as value + Tag (1000)
 
 func valOf(s ConstScalar) int {
 	if s == nil || (reflect.ValueOf(s).Kind() == reflect.Ptr && reflect.ValueOf(s).IsNil()) {
